@@ -59,12 +59,13 @@ def run(db, rep, tier):
                    "what the parser can throw")
         # R4: packet_processed = true on every path
         g = cfg.FnCFG(h)
-        sets = []
-        for n in facts.fn_nodes(h):
+        def sets_flag(fn, n, txt):
             if n["k"] == "BinaryOperator" and n["op"] == "=":
                 l = strip(n["c"][0])
-                if l["k"] == "MemberExpr" and l.get("member") == "packet_processed" and facts.cval(n["c"][1]) == 1:
-                    sets.append(g.pos(n))
+                return l["k"] == "MemberExpr" and l.get("member") == "packet_processed" and facts.cval(n["c"][1]) == 1
+            return False
+        # in the handler itself or in a helper it calls that always does it (facts.lifted_sites)
+        sets = [g.pos(site) for site, _, _ in facts.lifted_sites(db, h, sets_flag)]
         w = g.reaches_exit_avoiding((g.entry, -1), [p for p in sets if p], normal_only=False)
         if not sets or w is not None:
             rep.violation("R4-loop-shape", "%s:marks-processed" % key, facts.loc(h),
@@ -213,12 +214,16 @@ def read_bounds(db, rep, h):
 
 def loop_shape(db, rep, f):
     g = cfg.FnCFG(f)
-    loops = [n for n in facts.fn_nodes(f) if n["k"] == "WhileStmt"]
+    loops = [n for n in facts.fn_nodes(f) if n["k"] in ("WhileStmt", "DoStmt")]
     if len(loops) != 1:
-        rep.analysis_broken("next_packet: expected exactly one while loop, found %d" % len(loops))
+        rep.analysis_broken("next_packet: expected exactly one while / do-while loop, found %d" % len(loops))
         return
     loop = loops[0]
-    condn = loop["c"][0] if len(loop["c"]) == 2 else loop["c"][1]
+    if loop["k"] == "DoStmt":
+        # do { ... } while (C): the same loop, entered unconditionally (a fresh sniff_data satisfies C anyway)
+        condn = [x for x in loop["c"] if x is not None][-1]
+    else:
+        condn = loop["c"][0] if len(loop["c"]) == 2 else loop["c"][1]
     atoms = cond.facts_of(f, condn, True)
     has_pdu0 = any(op == "==" and "pdu" in facts.expr_str(l) and facts.cval(r) == 0 for op, l, r in atoms if r is not None) or \
         any(op == "false" and "pdu" in facts.expr_str(l) for op, l, r in atoms)
@@ -230,7 +235,7 @@ def loop_shape(db, rep, f):
                       "loop condition is not `no packet produced AND handler ran` (atoms: %s)" %
                       [(op, facts.expr_str(l)) for op, l, r in atoms])
     # body: flag reset before the capture call, negative result returns a null packet
-    body = loop["c"][-1]
+    body = [x for x in loop["c"] if x is not None][0] if loop["k"] == "DoStmt" else loop["c"][-1]
     reset = [n for n in facts.walk(body) if n["k"] == "BinaryOperator" and n["op"] == "=" and
              "packet_processed" in facts.expr_str(n["c"][0]) and facts.cval(n["c"][1]) == 0]
     calls = [n for n in facts.walk(body) if n["k"] in ("CallExpr", "CXXMemberCallExpr") and not n.get("callee")]
@@ -299,16 +304,19 @@ def pkthdr(db, rep):
             for field in PKTHDR_FIELDS[call["cname"]]:
                 n += 1
                 key = "%s:%s:%s" % (f["qual"].replace("Tins::", ""), call["cname"], field)
-                sets = []
-                for x in facts.fn_nodes(f):
+                want_txt = "%s.%s" % (hdrs[used].get("name"), field)
+
+                def is_set(fn, x, txt, field=field, want_txt=want_txt):
                     if (x["k"] == "BinaryOperator" and x.get("op") == "=") or \
                             (x["k"] == "CXXOperatorCallExpr" and x.get("cname") == "operator="):
                         ops = x["c"][-2:]
                         l = strip(ops[0])
-                        if l["k"] == "MemberExpr" and l.get("member") == field and \
-                                facts.strip_all(l["c"][0]).get("var") == used and facts.cval(ops[1]) != 0:
-                            sets.append(x)
-                pos = [g.pos(x) for x in sets]
+                        return l["k"] == "MemberExpr" and l.get("member") == field and txt(l) == want_txt and facts.cval(ops[1]) != 0
+                    return False
+                # assigned in this function, or in a helper that is handed the header and always assigns it
+                lifted = facts.lifted_sites(db, f, is_set)
+                sets = [node for site, node, fn_ in lifted]
+                pos = [g.pos(site) for site, node, fn_ in lifted]
                 pos = [q for q in pos if q]
                 if not pos or g.reached_from_entry_avoiding(g.pos(call), pos) is not None:
                     rep.violation("R5-pkthdr", key, facts.loc(f, call),
